@@ -372,7 +372,8 @@ fn judge(c: &Case, local: &mut Local, obs: &mut Obs) -> Verdict {
             }
             let grown: Vec<String> = hist::grown(sc, &s1).into_iter().map(|(k, b, a)| format!("{k}: {b} -> {a}")).collect();
             if !grown.is_empty() {
-                let index = grown[0].split('.').next().unwrap_or("").to_string();
+                // the first grown map (index.map) names the leak: narrower than the index alone
+                let index = grown[0].split(':').next().unwrap_or("").trim().to_string();
                 cands.push((format!("undo:index-growth:{index}"), format!("an edit-restore history holds more index entries than the same history with plain re-submissions: {}", grown.join(", "))));
             }
         }
